@@ -123,6 +123,9 @@ def cases(tier):
                         if cut_tz == "other" and shape != "series":
                             continue
                         out.append({"fn": "both", "kind": kind, "zone": zone, "shape": shape, "cut": lab, "cut_tz": cut_tz})
+                    if shape == "series" and zone != "UTC":
+                        # the same instant as a stdlib datetime (tzinfo with clock changes), max_days as a numpy integer
+                        out.append({"fn": "both", "kind": kind, "zone": zone, "shape": shape, "cut": lab, "cut_tz": "same", "limit_form": "pydatetime"})
     return out
 
 
@@ -186,6 +189,22 @@ def _nearest_ok(cands, target, got):
     return abs((got - target).total_seconds()) <= d.min() + 1e-9
 
 
+LIMIT_FORM = {"form": "timestamp"}
+
+
+def _lib(v):
+    """the limit in the form the case asks for: a pandas Timestamp (default) or a stdlib datetime with the same tzinfo"""
+    if v is not None and LIMIT_FORM["form"] == "pydatetime":
+        return v.to_pydatetime()
+    return v
+
+
+def _md(v):
+    if v is not None and LIMIT_FORM["form"] == "pydatetime" and float(v) == int(v):
+        return np.int64(v)   # and max_days as a numpy integer (what arithmetic on a column of day counts yields)
+    return v
+
+
 def run_baseline(data, end, max_days, start, opt, key0):
     from opendsm.eemeter.common.exceptions import NoBaselineDataError
     from opendsm.eemeter.common.transform import get_baseline_data
@@ -194,10 +213,10 @@ def run_baseline(data, end, max_days, start, opt, key0):
     key = dict(key0, fn="baseline", allow=opt["allow"], ignore=opt["ignore"])
     idx = data.index
     fp0 = _fp(data)
-    kw = dict(end=end, max_days=max_days, allow_billing_period_overshoot=opt["allow"],
+    kw = dict(end=_lib(end), max_days=_md(max_days), allow_billing_period_overshoot=opt["allow"],
               n_days_billing_period_overshoot=opt["nover"], ignore_billing_period_gap_for_day_count=opt["ignore"])
     if start is not None:
-        kw["start"] = start
+        kw["start"] = _lib(start)
     if end is None:
         end = idx.max()  # no end requested: everything up to the last row is at or before "the end" (oracle only)
     try:
@@ -296,10 +315,10 @@ def run_reporting(data, start, max_days, end, opt, key0):
     key = dict(key0, fn="reporting", allow=opt["allow"], ignore=opt["ignore"])
     idx = data.index
     fp0 = _fp(data)
-    kw = dict(start=start, max_days=max_days, allow_billing_period_overshoot=opt["allow"],
+    kw = dict(start=_lib(start), max_days=_md(max_days), allow_billing_period_overshoot=opt["allow"],
               ignore_billing_period_gap_for_day_count=opt["ignore"])
     if end is not None:
-        kw["end"] = end
+        kw["end"] = _lib(end)
     if start is None:
         start = idx.min()  # no start requested (oracle only)
     try:
@@ -402,6 +421,7 @@ def run_case(case):
                 beh.append(b)
                 n += 1
         return {"behaviour": beh, "violations": viol, "stats": {"calls": n}}
+    LIMIT_FORM["form"] = case.get("limit_form", "timestamp")
     cut = dict(cut_instants(idx))[case["cut"]]
     if case["cut_tz"] == "other":
         cut = cut.tz_convert(OTHER[case["zone"]])
